@@ -278,7 +278,7 @@ def replay(run, model, drv, path):
     """re-run the case(s) of a replay file: lines 'case: <line>' / 'replay: <line>'"""
     lines = []
     for ln in open(path):
-        m = re.match(r"(?:case|replay): ((?:oscx|oscun|oscderive) .*)$", ln.strip())
+        m = re.match(r"(?:case|replay): ((?:oscx|oscun|oscderive|oscseq) .*)$", ln.strip())
         if m:
             lines.append(m.group(1))
     om, oc, _ = tie.run_both(model, drv, lines)
@@ -438,6 +438,30 @@ def main(run):
                               no_input=True)
     run.cov["different_context"] = {"deliveries": len(other), "failures": n_other_bad}
 
+    # ---------------------------------------------------------------- sequences on one token
+    # registration, re-registration / cancellation with the same token, responses with and
+    # without Partial IV: the request binding kept by both endpoints is refreshed in between
+    sq = [ln for ln in corpus if ln.startswith("oscseq ")]
+    sq += [G.gen_sequence(r) for _ in range(60 if quick else 1500)]
+    qm, qc, _ = tie.run_both(model, drv, sq, timeout=3000)
+    n_sq_bad = 0
+    for k, ln in enumerate(sq):
+        run.count(ln, "REJECT" not in qm[k] and "NONE" not in qm[k])
+        run.hist("sequence_steps", len(ln.split()) - 10)
+        bad = None
+        if qc[k].startswith("CRASH"):
+            bad = "implementation crashes in a request/response sequence on one token"
+        elif re.search(r"=(NONE|REJECT|PARSE-REJECT|PLAIN)", qc[k]):
+            step = len(re.findall(r" d[qr]=", qc[k].split("REJECT")[0].split("NONE")[0]))
+            bad = "sequence on one token: a genuine message is not protected / not recovered by the peer (step %d of %s)" % (
+                max(step, 1), " ".join(ln.split()[10:]))
+        elif qm[k] != qc[k]:
+            bad = "sequence on one token: protected bytes / results differ from the RFC 8613 reference"
+        if bad:
+            n_sq_bad += 1
+            if n_sq_bad <= 3:
+                run.violation(bad, "case: %s\nmodel: %s\nimpl : %s\n" % (ln, qm[k], qc[k]), tag="seq%d" % n_sq_bad)
+    run.cov["sequences"] = {"cases": len(sq), "failures": n_sq_bad}
     # ---------------------------------------------------------------- re-spelled OSCORE options
     sv = []
     for ctxt, mode, dgh, info in tamper_jobs:
@@ -587,5 +611,5 @@ def main(run):
     stats["reference_disagreements"] = ndis
     run.cov["tamper"] = stats
     run.cov["evaluations"] += stats["variants"]
-    run.cov["disagreements"] = nbad + n_other_bad + n_sv_bad + nflip_bad + ndis
+    run.cov["disagreements"] = nbad + n_other_bad + n_sq_bad + n_sv_bad + nflip_bad + ndis
     run.cov["corpus_cases"] = len(corpus)
